@@ -1,6 +1,6 @@
 NOT_YET = {}
 chk("C01",
-    "Exhaustive enumeration of all thread schedules (within a stated preemption bound) of 2-3 concurrent Get callers plus background builds on the real Failover/FailoverOf code, for every cell of the configuration x entry-state x builder-script table; client programs include a forced-refresh (SkipRead) Get, a reused key buffer, a caller that cancels its context while its build is running, and builds that take longer than UpdateTTL of virtual time; a monitor inside the builder asserts at most one build per key in flight in every explored state.",
+    "Exhaustive enumeration of all thread schedules (within a stated preemption bound) of 2-3 concurrent Get callers plus background builds on the real Failover/FailoverOf code, for every cell of the configuration x entry-state x builder-script table; client programs include a forced-refresh (SkipRead) Get, a reused key buffer, a caller that cancels its context while its build is running, builds that take longer than UpdateTTL of virtual time, and one backend call failing at every position; a monitor inside the builder asserts at most one build per key in flight in every explored state.",
     "Trusted: Go toolchain, the shim packages (delegate to std primitives), vinst source rewriting, the harness builder monitor. Code between two synchronisation operations is executed atomically; >3 threads and >bound preemptions are not explored.",
     "stateless model checking of the implementation (controlled scheduler, preemption-bounded DFS over schedules)", "DESIGN.md §C01")
 
@@ -9,15 +9,15 @@ chk("C07",
     "Trusted: reference model ref.ExpMap, virtual clock shim, vinst rewriting. Sequences longer than the depth bound and key/value alphabets beyond the listed ones are not explored.",
     "explicit-state model checking (BFS over operation histories of the implementation vs reference model)", "DESIGN.md §C07")
 chk("C10",
-    "Complete enumeration of the TTL configuration grid (magnitude 1ns..100y (150y thorough) x sign x config/context level x composition of the context TTL with other context helpers x jitter x rand answer incl. both extremes x backend) under a virtual clock; expiry bounds are checked in exact rational arithmetic and reads are probed 1ns before/after the expiry instant.",
+    "Complete enumeration of the TTL configuration grid (magnitude 1ns..100y (150y thorough) x sign x config/context level x composition of the context TTL with other context helpers x history of the key (fresh, already written with another TTL, expired by ExpireAll) x jitter x rand answer incl. both extremes x backend) under a virtual clock; expiry bounds are checked in exact rational arithmetic and reads are probed 1ns before/after the expiry instant.",
     "Trusted: virtual clock and rand seams; monotonicity of Trait.TTL in the rand answer (checked on interior grid points) extends the two extremes to every rand value. TTL magnitudes outside the grid are not explored.",
     "exhaustive enumeration of a finite configuration/environment-answer table on the implementation", "DESIGN.md §C10")
 chk("C11",
-    "Explicit-state BFS over sequences of writes (default/per-call TTL), clock advances, ExpireAll and cleanup cycles (the janitor's own function through a verif-tagged accessor) for finite and Unlimited TimeToLive x DeleteExpiredAfter x {no limit, never exceeded memory limit, count limit exceeded only by entries the cycle deletes} x 3 backends, compared state-by-state with the reference model's removal rule; plus all schedules of a cleanup cycle next to writes, and the constructor-started janitor goroutine itself.",
+    "Explicit-state BFS over sequences of writes (default/per-call TTL), clock advances, ExpireAll and cleanup cycles (the janitor's own function through a verif-tagged accessor) for finite and Unlimited TimeToLive x DeleteExpiredAfter x {no limit, never exceeded memory limit, count limit exceeded only by entries the cycle deletes} x 3 backends, compared state-by-state with the reference model's removal rule; plus all schedules of a cleanup cycle next to writes and of DeleteAll next to a write of an expired entry, and the constructor-started janitor goroutine itself.",
     "Trusted: ref.ExpMap.Cleanup as the statement's rule; the janitor goroutine's timing is replaced by explicit cleanup operations at every position.",
     "explicit-state model checking (BFS over operation histories of the implementation vs reference model)", "DESIGN.md §C11")
 chk("C12",
-    "Complete enumeration of limit x fraction x strategy x EvictionNeeded x backend cells, each with every cache size around and far above the limit and every access history up to the bound (reads, ExpireAll, re-writes; with and without rank ties; 1s and 1us apart); two real cleanup cycles per history; amount, order and metric oracles evaluated on every case.",
+    "Complete enumeration of limit x fraction x strategy x EvictionNeeded x backend cells, each with every cache size around and far above the limit and every access history up to the bound (reads, ExpireAll, re-writes; with and without rank ties; 1s and 1us apart; additional long-expired entries that the cycle deletes first); two real cleanup cycles per history; amount, order and metric oracles evaluated on every case.",
     "Trusted: harness rank model (expiry / last served instant / serve count). Heap and Sys limits are configured at a value that can never be exceeded (they must not cause eviction); exceeding them is only reachable through EvictionNeeded (runtime.ReadMemStats is not seamed).",
     "exhaustive enumeration of a finite configuration x history table on the implementation", "DESIGN.md §C12")
 chk("C13",
@@ -26,21 +26,21 @@ chk("C13",
     "exhaustive enumeration of bounded input sequences in every iteration order on the implementation", "DESIGN.md §C13")
 
 chk("C02",
-    "Exhaustive enumeration of schedules (preemption-bounded) of concurrent Gets on the real Failover/FailoverOf, crossed with builder outcome scripts and with a backend Read/Write fault injected at every call position (deviation-bounded); plus two constructed hash-colliding keys and a caller reusing one key buffer; every returned (value, error) pair is traced to a finished builder invocation for the same key, the preloaded content or the injected fault.",
+    "Exhaustive enumeration of schedules (preemption-bounded) of concurrent Gets on the real Failover/FailoverOf, crossed with builder outcome scripts and with a backend Read/Write fault injected at every call position (deviation-bounded); plus two constructed hash-colliding keys and a caller reusing one key buffer, and a builder whose error satisfies ErrWithExpiredItem and carries a foreign value; every returned (value, error) pair is traced to a finished builder invocation for the same key, the preloaded content or the injected fault.",
     "Trusted: token discipline of the harness (values carry key, origin, invocation index). Same scheduling granularity and bounds as C01; at most 1 (quick) / 2 (thorough) injected faults per execution.",
     "stateless model checking of the implementation with fault enumeration (preemption- and deviation-bounded DFS)", "DESIGN.md §C02")
 chk("C03",
-    "Complete enumeration of the finite decision table (4 entry states x failure cache x SyncUpdate x SyncRead x FailHard x MaxStaleness x FailedUpdateTTL x builder outcome) on all six API x backend pairings (Failover / FailoverOf over ShardedMap, SyncMap, ShardedMapOf: 3072 cells), each cell executed on the real code under the scheduler with all schedules of caller continuation and background build (unbounded, happens-before cached), compared with ref.FailoverTable written from the README; plus explicit-state search over Get / clock / ExpireAll sequences against ref.FModel so that cells are entered from non-initial states.",
+    "Complete enumeration of the finite decision table (4 entry states x failure cache x SyncUpdate x SyncRead x FailHard x MaxStaleness x FailedUpdateTTL x builder outcome) on all six API x backend pairings (Failover / FailoverOf over ShardedMap, SyncMap, ShardedMapOf: 3072 cells), each cell executed on the real code under the scheduler with all schedules of caller continuation and background build (unbounded, happens-before cached), compared with ref.FailoverTable written from the README; plus explicit-state search over Get (plain and under a caller TTL) / clock / ExpireAll sequences against ref.FModel so that cells are entered from non-initial states.",
     "Trusted: ref.FailoverTable as a faithful transcription of README bullets 2-7 (two ambiguous cells accept either documented outcome).",
     "exhaustive enumeration of a finite configuration table + stateless model checking of each cell", "DESIGN.md §C03")
 
 chk("C04",
-    "Exhaustive enumeration of schedules (preemption-bounded) of concurrent Gets plus caller behaviour after return (overwrite or reuse of the key buffer at every scheduling position relative to the background build, context cancellation), builders that succeed, fail or panic (recovered by the caller), and one injected backend fault at every call position; termination through the scheduler's deadlock detection, Gets that follow an aborted walk of the backend; lock accounting at quiescence, a Get at quiescence that must observe the last completed build, and a black-box follow-up that must rebuild every key exactly once.",
+    "Exhaustive enumeration of schedules (preemption-bounded) of concurrent Gets plus caller behaviour after return (overwrite or reuse of the key buffer at every scheduling position relative to the background build, context cancellation), builders that succeed, fail or panic (recovered by the caller), and one injected backend fault at every call position; termination through the scheduler's deadlock detection, Gets that follow an aborted walk of the backend; lock accounting at quiescence, every completed Get has a value or an error, a Get at quiescence that must observe the last completed build, and a black-box follow-up that must rebuild every key exactly once.",
     "Trusted: verif-tagged key-lock accessor; follow-up phase as the black-box meaning of 'a later Get is able to build again'. Same granularity and bounds as C01.",
     "stateless model checking of the implementation with fault enumeration (preemption- and deviation-bounded DFS, deadlock detection)", "DESIGN.md §C04")
 
 chk("C05",
-    "(a,c) exhaustive schedule enumeration of SyncRead bursts (2-3 threads) on the real code with a builder-invocation counter as oracle; (b) exhaustive enumeration of all operation sequences up to the bound over Get(ok)/Get(fail) (plain, under a cancelled caller context, under a caller TTL, of a second key)/clock advances around the failure window/ExpireAll/cleanup cycles of the internal failure cache, for three FailedUpdateTTL settings and the jitter answer at both extremes, under the virtual clock.",
+    "(a,c) exhaustive schedule enumeration of SyncRead bursts (2-3 threads) on the real code with a builder-invocation counter as oracle, also against a slow data source followed by one more Get that must not build; (b) exhaustive enumeration of all operation sequences up to the bound over Get(ok)/Get(fail) (plain, under a cancelled caller context, under a caller TTL, of a second key)/clock advances around the failure window/ExpireAll/cleanup cycles of the internal failure cache, for three FailedUpdateTTL settings and the jitter answer at both extremes, under the virtual clock.",
     "Trusted: virtual clock/rand seams. Bursts happen at one virtual instant; bounds as C01.",
     "stateless model checking of the implementation (schedules) + exhaustive bounded operation-sequence enumeration", "DESIGN.md §C05")
 chk("C06",
@@ -49,11 +49,11 @@ chk("C06",
     "exhaustive enumeration of a finite input/configuration table + stateless model checking of each case", "DESIGN.md §C06")
 
 chk("C15",
-    "(seq) complete enumeration of key->label incidence structures x label argument lists (ordered, duplicates included) x deleter sets x registration style (one call, repeated, one label per call, cumulative) incl. two keys of equal 64-bit hash, with a Delete failure injected at every call position of the fault-free run followed by a retry, and a second write/label/invalidate round on the same index; (conc) exhaustive schedule enumeration (preemption-bounded; thorough: unbounded, HB cached) of AddLabels/AddCache/InvalidateByLabels threads on a shared index with a final-sweep oracle.",
+    "(seq) complete enumeration of key->label incidence structures x label argument lists (ordered, duplicates included) x deleter sets x registration style (one call, repeated, one label per call, cumulative) incl. two keys of equal 64-bit hash and caches registered only after the labelling, with a Delete failure injected at every call position of the fault-free run followed by a retry, and a second write/label/invalidate round on the same index; (conc) exhaustive schedule enumeration (preemption-bounded; thorough: unbounded, HB cached) of AddLabels/AddCache/InvalidateByLabels threads on a shared index with a final-sweep oracle.",
     "Trusted: harness deleter wrappers; Go map iteration order is owned through the vinst map-range rewrite (sorted cursor). Unsynchronised memory access is left to C16.",
     "exhaustive input and fault-position enumeration + stateless model checking of the implementation", "DESIGN.md §C15")
 chk("C17",
-    "(seq) explicit-state BFS over Invalidate (also with a panicking callback recovered by the caller, and under an already cancelled context) / clock-advance / Callbacks=nil sequences against the acceptance model, every path under the scheduler (a call that never returns is a detected deadlock), the Invalidator's private timestamp being part of the state key; (conc) exhaustive schedule enumeration of 2-3 Invalidate callers plus a clock thread, with callbacks that contain a scheduling point so that overlap would be observable.",
+    "(seq) explicit-state BFS over Invalidate (also with a panicking callback recovered by the caller, and under an already cancelled context) / clock-advance / Callbacks=nil sequences against the acceptance model, every path under the scheduler (a call that never returns is a detected deadlock), the Invalidator's private timestamp being part of the state key; (conc) exhaustive schedule enumeration of 2-3 Invalidate callers plus a clock thread, with callbacks that contain a scheduling point so that overlap would be observable; every rejection must be explained by an accepted run less than SkipInterval earlier.",
     "Trusted: virtual clock; attribution of callbacks to calls through a context value.",
     "explicit-state BFS + stateless model checking of the implementation (preemption-bounded / HB-cached DFS)", "DESIGN.md §C17")
 
@@ -63,7 +63,7 @@ chk("C18",
     "explicit-state BFS + stateless model checking of the implementation (preemption-bounded DFS)", "DESIGN.md §C18")
 
 chk("C09",
-    "Explicit-state BFS over operation sequences on three constructed, pairwise xxhash64-colliding keys plus a plain key (3 backends, with and without key-buffer scribbling after every call) against an ideal per-key model that only tolerates a miss explained by a later colliding write; plus exhaustive schedule enumeration of Failover Gets whose caller overwrites or reuses the key buffer at every scheduling position relative to the background build.",
+    "Explicit-state BFS over operation sequences over Read/Write/Delete/Load/ExpireAll/labels on three constructed, pairwise xxhash64-colliding keys plus a plain key (3 backends, with and without key-buffer scribbling after every call) against an ideal per-key model that only tolerates a miss explained by a later colliding write; plus exhaustive schedule enumeration of Failover Gets whose caller overwrites or reuses the key buffer at every scheduling position relative to the background build.",
     "Trusted: the collision construction is asserted against cespare/xxhash at run time; ideal model ref.ExpMap. Colliding keys other than the constructed 64-byte family are not explored.",
     "constructed adversarial inputs + explicit-state BFS + stateless model checking of the implementation", "DESIGN.md §C09")
 
